@@ -351,6 +351,28 @@ class Ctx:
             self.obligation('coqchk BF.Props.%s' % self.pid, okc, ' '.join(out.split())[-400:])
         return ok_all
 
+    # ---- thorough tier: the same check under other execution modes of the numba kernels ---------
+    def run_modes(self, modes=('NUMBA_DISABLE_JIT=1', 'NUMBA_BOUNDSCHECK=1')):
+        """thorough tier only: re-run this property's quick check in a subprocess with the kernels interpreted
+        (NUMBA_DISABLE_JIT=1) and with bounds-checked JIT (NUMBA_BOUNDSCHECK=1: an out-of-bounds access raises instead of
+        returning garbage).  Each run is one obligation; a violation found there is reported with its replay."""
+        if self.tier != 'thorough' or os.environ.get('VERIF_SUBRUN') == '1':
+            return
+        for mode in modes:
+            k, v = mode.split('=')
+            env = dict(os.environ)
+            env.update({k: v, 'VERIF_SUBRUN': '1', 'VERIF_EVIDENCE_DIR': os.path.join(BUILD, 'mode-ev-' + k), 'VERIF_SEED': str(self.seed)})
+            rc, out = _run([os.path.join(VERIF, 'check'), self.pid, '--tier', 'quick'], cwd=VERIF, timeout=3600, env=env)
+            m = re.search(r'VIOLATION property=\S+ replay=(\S+)', out)
+            self.obligation('S+K:%s quick check under %s' % (self.pid, mode), rc == 0, out.strip().splitlines()[-1][:300] if out.strip() else 'no output')
+            self.extra.setdefault('execution_modes', {})[mode] = 'exit %d' % rc
+            if rc == 1 and m and 'no-failing-input-found' not in out:
+                try:
+                    body = json.load(open(m.group(1)))
+                    self.violation('input', '[%s] %s' % (mode, body.get('what', '')), {k2: body[k2] for k2 in body if k2 in ('kind', 'call', 'args', 'failure')})
+                except Exception:  # noqa
+                    pass
+
     # ---- (G) generated layer ------------------------------------------------------------------
     def check_generated(self, topics):
         """regenerate Gen.v from /repo's current source, compile it and re-prove the bridge lemmas of the given topics
